@@ -58,7 +58,7 @@ impl Prop for C02 {
 
     fn gen(&self, seed: u64, run: u64, tier: Tier) -> Trace {
         let mut rng = Rng::new(mix(seed, "C02", run));
-        let deep = tier == Tier::Thorough && run % 4 == 3;
+        let deep = tier == Tier::Thorough && run % 16 == 15;
         let mut trng = if deep {
             // few, large trees (they are leaked and shared through the tree cache)
             Rng::new(mix(seed, "C02-deeptree", run / 8192))
